@@ -29,9 +29,19 @@ TRIGGERS = {
  "T-C05": ("C05", "WasmKeeper::send skips the bank transfer when sender == recipient: a contract calling ITSELF with funds it does not own runs instead of failing"),
  "T-C06": ("C06", "StorageTransaction::set drops a write whose value equals the BASE value (compared with the backing store instead of the cache view): base k=v, change k in the cache, write v back -> lost"),
  "T-C07": ("C07", "range_with_prefix treats an explicit EMPTY end bound Some(b\"\") like None: the range returns the rest of the view instead of nothing"),
- "T-C08": ("C08", "(round 2)"),
+ "T-C08": ("C08", "contract_namespace is built from the LOWER-CASED address: two contracts whose addresses differ only in letter case (custom AddressGenerator) share one key space"),
  "T-C09": ("C09", "BankKeeper::burn checks each coin against the balance as loaded and then subtracts saturating: a list naming one denomination twice, each coin affordable alone but not together, succeeds (balance 7, send [5,5])"),
  "T-C10": ("C10", "instantiate: the attached funds are transferred AFTER the instantiate entry point ran: queries issued inside instantiate do not see the funds just sent"),
+ "T-C11": ("C11", "instantiate trims the label before recording it: a label with leading/trailing whitespace is recorded differently from what was supplied (and a whitespace-only label is rejected)"),
+ "T-C12": ("C12", "the response of a migrate entry point is processed with the requesting ADMIN as sender: UpdateAdmin / ClearAdmin / Migrate emitted from migrate pass the admin check although the emitting contract is not the admin"),
+ "T-C13": ("C13", "verify_attributes skips the reserved-key check when the (trimmed) value is empty: an attribute with a key starting with '_' AND an empty/blank value is accepted"),
+ "T-C14": ("C14", "slash() scales pending unbondings only for delegators still in the validator's staker set: the unbonding of someone who has fully left the validator is not slashed and paid in full"),
+ "T-C15": ("C15", "calculate_rewards takes floor(now - last) instead of floor(now) - floor(last): the sub-second remainder is dropped at every reward update (needs block times with differing sub-second parts and stakes large enough that a second of reward is worth tokens). NOTE: written against the tree before the C15 repair; the patch no longer applies, the equivalent change is mutants/m15-subsecond-remainder-dropped.diff"),
+ "T-C16": ("C16", "slash() loads ValidatorInfo before update_rewards and saves the stale copy: the period since the last reward update is counted a second time on the slashed stake (accrued rewards change at the slash)"),
+ "T-C17": ("C17", "the response of a migrate entry point is processed with the admin as sender: every message emitted from migrate reaches its module in the admin's name"),
+ "T-C18": ("C18", "addr_validate pre-checks the prefix with split_once('1') (first '1', not the last): every address of a codec whose prefix contains the character '1' is rejected"),
+ "T-C19": ("C19", "ValidatorInfo.stakers becomes a HashSet: its serialisation order in storage depends on a per-set random seed, so two identical runs store different bytes (needs >= 2 delegators on one validator and a comparison of raw storage)"),
+ "T-C20": ("C20", "ContractWrapper::with_reply_empty rebuilds the wrapper with checksum: None: a checksum set before with_reply_empty is lost"),
  "S-C20": ("C20", "AppBuilder::with_ibc rebuilds the builder with the default block: needs with_block(..) followed later by with_ibc(..)"),
 }
 
@@ -74,7 +84,7 @@ def main(logs):
         json.dump(meta, open(os.path.join(d, "meta.json"), "w"), indent=1)
         rows.append((sid, prop, "yes" if prop in detected else ("NO" if r["checks"] else "not run"), ", ".join(detected), trig))
     with open(os.path.join(ROOT, "seeded", "README.md"), "w") as f:
-        f.write("# Seeded property-breaking changes (from sub-agents)\n\nEach directory holds `patch.diff` (apply with `git -C /repo apply`), the demonstration test `seed_demo.rs`, the sub-agent's `NOTES.md` and `meta.json`.\nAll were re-verified with `tools/selftest.sh` on a scratch copy of /repo: the baseline suite passes with the change, the demonstration passes without and fails with it.\n\n| seed | breaks | own check detects | all quick checks that fail | needs |\n|---|---|---|---|---|\n")
+        f.write("# Seeded property-breaking changes (from sub-agents)\n\nS-* = round 1, T-* = round 2 (the sub-agent was told the round-1 change as 'already taken'). Each directory holds `patch.diff` (apply with `git -C /repo apply`), the demonstration test `seed_demo.rs`, the sub-agent's `NOTES.md` and `meta.json`.\nAll were re-verified with `tools/selftest.sh` on a scratch copy of /repo: the baseline suite passes with the change, the demonstration passes without and fails with it.\n\n| seed | breaks | own check detects | all quick checks that fail | needs |\n|---|---|---|---|---|\n")
         for row in rows:
             f.write("| %s | %s | %s | %s | %s |\n" % row)
     print("\n".join("%s %s own=%s all=[%s]" % r[:4] for r in rows))
